@@ -27,7 +27,7 @@ class Namer:
 
 @st.composite
 def scope_programs(draw, tier, fail=2, volatile=2, until=3, late_spawn=2, priv=1, flags=True,
-                   finally_spawn=1, nocatch=0, uncaught_blocks=0, finally_raise=0):
+                   finally_spawn=1, nocatch=0, uncaught_blocks=0, finally_raise=0, sync=0, near_dates=0):
     """A program whose roots own trees of nested Scope/until blocks.
 
     Weights (0..10) steer how often failures / volatile children / until-blocks / late spawns occur.
@@ -77,6 +77,15 @@ def scope_programs(draw, tier, fail=2, volatile=2, until=3, late_spawn=2, priv=1
                 out.append({'op': 'finally', 'body': [sl(), sl()],
                             'final': [{'op': 'spawn_into', 'ref': draw(st.sampled_from(scope_chain)),
                                        'child': {'name': cn, 'steps': [sl(), {'op': 'mark', 'v': 'late'}, sl()]}}]})
+            elif r < 18 and sync and w(sync * 3):
+                # the activity holds a lock / waits for a queue item when its scope is torn down
+                k2 = draw(st.integers(0, 2))
+                if k2 == 0:
+                    out.append({'op': 'lock', 'i': 0, 'body': [sl(), sl()]})
+                elif k2 == 1:
+                    out.append({'op': 'qget', 's': 0})
+                else:
+                    out.append({'op': 'qput', 's': 0, 'v': draw(st.integers(0, 9))})
             elif r < 18 and finally_raise and toplevel and w(finally_raise * 3):
                 # clean-up code that fails - also when the activity is closed by its scope
                 out.append({'op': 'finally', 'body': [sl(), sl()],
@@ -97,7 +106,10 @@ def scope_programs(draw, tier, fail=2, volatile=2, until=3, late_spawn=2, priv=1
         if w(until):
             blk['op'] = 'until'
             k = draw(st.integers(0, 9))
-            if k < 6 or not nflags:
+            if near_dates and w(near_dates * 2):
+                # a date on the grid of the program's own waits: failures and the notification can tie
+                blk['notif'] = [draw(st.sampled_from(['time_eq', 'time_eq', 'time_ge'])), draw(st.sampled_from([0.5, 1, 2, 3, 4]))]
+            elif k < 6 or not nflags:
                 blk['notif'] = ['delay', draw(st.sampled_from([0.5, 1, 1, 2, 3, 4]))]
             elif k < 8:
                 blk['notif'] = ['flag', draw(st.integers(0, nflags - 1))]
@@ -154,7 +166,7 @@ def scope_programs(draw, tier, fail=2, volatile=2, until=3, late_spawn=2, priv=1
         ctl += [{'op': 'sleep', 'd': draw(st.sampled_from([0.5, 1, 2]))},
                 {'op': 'set_flag', 'i': 1, 'v': True}]
         roots.append({'name': 'ctl', 'steps': ctl})
-    prog = {'start': 0, 'objs': {'flags': nflags}, 'roots': roots}
+    prog = {'start': 0, 'objs': {'flags': nflags, 'locks': 1, 'queues': 1}, 'roots': roots}
     _resolve_dates(prog)
     return {'prog': prog, 'targets': targets}
 
